@@ -579,7 +579,8 @@ Lemma run_inv : forall ec er fl children o, in_domain ec er children ->
     Inv (in_flow_children children) ec er m items /\
     o_cols o = m_cols m /\ o_rows o = m_rows m /\
     tc_neg (m_cols m) <= 127 /\ tc_neg (m_rows m) <= 127 /\ tc_explicit (m_cols m) = ec /\ tc_explicit (m_rows m) = er /\
-    Forall2 (reports (m_cols m) (m_rows m)) (sort_items items) (o_items o).
+    Forall2 (reports (m_cols m) (m_rows m)) (sort_items items) (o_items o) /\
+    exists m0, place_grid_items m0 (in_flow_children children) fl = Ok (m, items).
 Proof.
   intros ec er fl children o (Hec & Her & Hlen & Hch) H. unfold grid_placement_run in H.
   apply bind_ok in H. destruct H as [[cc rc] [Eest H]].
@@ -588,11 +589,12 @@ Proof.
   apply bind_ok in H. destruct H as [m0 [Em0 H]].
   apply with_track_counts_wf in Em0; auto; try lia. destruct Em0 as (Hwf0 & Hmc & Hmr).
   apply bind_ok in H. destruct H as [[m items] [Epl H]].
+  pose proof Epl as Epl0.
   apply place_grid_items_inv in Epl; auto.
   - destruct Epl as (Hinv & Hs1 & Hs2 & Hs3 & Hs4). rewrite Hmc, Hmr, Hc3, Hr3 in *.
     apply bind_ok in H. destruct H as [rep [Erep H]]. inversion H; subst o; clear H. simpl.
     exists m, items. split; [exact Hinv|]. split; [reflexivity|]. split; [reflexivity|].
-    split; [lia|]. split; [lia|]. split; [lia|]. split; [lia|].
+    split; [lia|]. split; [lia|]. split; [lia|]. split; [lia|]. split; [|exists m0; exact Epl0].
     apply mapM_spec in Erep. destruct Hinv as (Hwf & _). destruct Hwf as (W1 & W2 & W3 & W4 & _).
     eapply Forall2_imp; [|exact Erep]. intros it p Hp. simpl in Hp.
     apply report_item_spec in Hp; auto.
@@ -623,7 +625,7 @@ Theorem area_in_range : forall ec er fl children o, in_domain ec er children ->
     1 <= p_col_start p /\ p_col_start p < p_col_end p /\ p_col_end p <= tlen (o_cols o) + 1.
 Proof.
   intros ec er fl children o Hdom Hrun p Hp.
-  destruct (run_inv _ _ _ _ _ Hdom Hrun) as (m & items & Hinv & Hoc & Hor & _ & _ & _ & _ & Hrep).
+  destruct (run_inv _ _ _ _ _ Hdom Hrun) as (m & items & Hinv & Hoc & Hor & _ & _ & _ & _ & Hrep & _).
   destruct (Forall2_In_r _ _ _ _ _ _ Hrep Hp) as [it [Hit Hr]]. apply (proj1 (In_sort_items _ _)) in Hit.
   destruct Hinv as (Hwf & Hall & _). rewrite Forall_forall in Hall. destruct (Hall it Hit) as ((N1 & N2) & _ & (C1 & C2 & C3 & C4) & _).
   destruct Hr as (_ & _ & _ & R1 & R2 & R3 & R4). rewrite Hoc, Hor. unfold tlen.
@@ -639,7 +641,7 @@ Theorem explicit_honoured : forall ec er fl children o, in_domain ec er children
        p_col_start p = a + tc_neg (o_cols o) + 1 /\ p_col_end p = b + tc_neg (o_cols o) + 1).
 Proof.
   intros ec er fl children o Hdom Hrun p k c Hp Hn.
-  destruct (run_inv _ _ _ _ _ Hdom Hrun) as (m & items & Hinv & Hoc & Hor & _ & _ & _ & _ & Hrep).
+  destruct (run_inv _ _ _ _ _ Hdom Hrun) as (m & items & Hinv & Hoc & Hor & _ & _ & _ & _ & Hrep & _).
   destruct (Forall2_In_r _ _ _ _ _ _ Hrep Hp) as [it [Hit Hr]]. apply (proj1 (In_sort_items _ _)) in Hit.
   destruct Hinv as (Hwf & Hall & _). rewrite Forall_forall in Hall. destruct (Hall it Hit) as (_ & _ & _ & (c' & Hc' & Hh1 & Hh2)).
   destruct Hr as (Ri & _ & _ & R1 & R2 & R3 & R4). rewrite <- Ri in Hc'.
@@ -660,7 +662,7 @@ Theorem auto_no_overlap : forall ec er fl children o, in_domain ec er children -
     ~ overlap p q.
 Proof.
   intros ec er fl children o Hdom Hrun p q k c Hp Hq Hne Hn Hauto.
-  destruct (run_inv _ _ _ _ _ Hdom Hrun) as (m & items & Hinv & Hoc & Hor & _ & _ & _ & _ & Hrep).
+  destruct (run_inv _ _ _ _ _ Hdom Hrun) as (m & items & Hinv & Hoc & Hor & _ & _ & _ & _ & Hrep & _).
   destruct (Forall2_In_r _ _ _ _ _ _ Hrep Hp) as [a [Ha Hra]]. apply (proj1 (In_sort_items _ _)) in Ha.
   destruct (Forall2_In_r _ _ _ _ _ _ Hrep Hq) as [b [Hb Hrb]]. apply (proj1 (In_sort_items _ _)) in Hb.
   destruct Hinv as (Hwf & Hall & Hsep).
@@ -674,4 +676,189 @@ Proof.
   assert (Hd : disjoint a b).
   { eapply sepr_disjoint; eauto; try (apply in_rev; rewrite rev_involutive; auto); try apply in_flow_children_nodup. congruence. }
   unfold disjoint in Hd. unfold overlap. lia.
+Qed.
+
+(* ------------------------------------------------------------------ every in-flow child is placed exactly once, reported in source order *)
+Lemma foldM_inv_list : forall A S (f : S -> A -> res S) (P : list A -> S -> Prop) l s0 s,
+  P [] s0 -> (forall done x s s', P done s -> f s x = Ok s' -> P (done ++ [x]) s') -> foldM f l s0 = Ok s -> P l s.
+Proof.
+  intros A S f P l. assert (G : forall done s0 s, P done s0 -> (forall done x s s', P done s -> f s x = Ok s' -> P (done ++ [x]) s') ->
+                              foldM f l s0 = Ok s -> P (done ++ l) s).
+  { induction l; simpl; intros done s0 s H0 Hstep H.
+    - inversion H; subst. rewrite app_nil_r. auto.
+    - apply bind_ok in H. destruct H as [s1 [E H]]. replace (done ++ a :: l) with ((done ++ [a]) ++ l) by (rewrite <- app_assoc; reflexivity).
+      eapply IHl; eauto. }
+  intros s0 s H0 Hstep H. apply (G [] s0 s); auto.
+Qed.
+
+Lemma record_items : forall m items idx pax ps ss ty m' items',
+  record_grid_placement m items idx pax ps ss ty = Ok (m', items') -> map i_index items' = map i_index items ++ [idx].
+Proof.
+  intros. unfold record_grid_placement in H. apply bind_ok in H. destruct H as [m1 [_ H]].
+  destruct (match pax with Horizontal => (ps, ss) | Vertical => (ss, ps) end). inversion H; subst.
+  rewrite map_app. reflexivity.
+Qed.
+
+Lemma phase1_step_items : forall ecc erc pax st x st', phase1_step ecc erc pax st x = Ok st' ->
+  map i_index (snd st') = map i_index (snd st) ++ [fst x].
+Proof.
+  intros ecc erc pax [m items] x [m' items'] H. simpl in *.
+  apply bind_ok in H. destruct H as [b [_ H]]. apply bind_ok in H. destruct H as [[ps ss] [_ H]].
+  eapply record_items; eauto.
+Qed.
+
+Lemma phase2_step_items : forall ecc erc fl st x st', phase2_step ecc erc fl st x = Ok st' ->
+  map i_index (snd st') = map i_index (snd st) ++ [fst x].
+Proof.
+  intros ecc erc fl [m items] x [m' items'] H. simpl in *.
+  apply bind_ok in H. destruct H as [b [_ H]]. apply bind_ok in H. destruct H as [[ps ss] [_ H]].
+  eapply record_items; eauto.
+Qed.
+
+Lemma phase4_step_items : forall ecc erc fl gs st x st', phase4_step ecc erc fl gs st x = Ok st' ->
+  map i_index (snd (fst st')) = map i_index (snd (fst st)) ++ [fst x].
+Proof.
+  intros ecc erc fl gs [[m items] gp] x [[m' items'] gp'] H. simpl in *.
+  apply bind_ok in H. destruct H as [b [_ H]]. apply bind_ok in H. destruct H as [[ps ss] [_ H]].
+  apply bind_ok in H. destruct H as [[m1 items1] [Er H]]. inversion H; subst. eapply record_items; eauto.
+Qed.
+
+Lemma place_grid_items_indices : forall m0 children fl m items, place_grid_items m0 children fl = Ok (m, items) ->
+  map i_index items =
+    map fst (filter phase1_filter children) ++
+    map fst (filter (phase2_filter (primary_axis fl) (other_axis (primary_axis fl))) children) ++
+    map fst (filter (phase4_filter (other_axis (primary_axis fl))) children).
+Proof.
+  intros m0 children fl m items H. unfold place_grid_items in H.
+  apply bind_ok in H. destruct H as [st1 [E1 H]].
+  apply (foldM_inv_list _ _ _ (fun done st => map i_index (snd st) = map fst done)) in E1; auto.
+  2:{ intros done x s s' Hd Hs. apply phase1_step_items in Hs. rewrite Hs, Hd, map_app. reflexivity. }
+  apply bind_ok in H. destruct H as [st2 [E2 H]].
+  apply (foldM_inv_list _ _ _ (fun done st => map i_index (snd st) = map i_index (snd st1) ++ map fst done)) in E2.
+  2:{ simpl. rewrite app_nil_r. reflexivity. }
+  2:{ intros done x s s' Hd Hs. apply phase2_step_items in Hs. rewrite Hs, Hd, map_app, <- app_assoc. reflexivity. }
+  destruct st2 as [m2 items2]. simpl in *.
+  apply bind_ok in H. destruct H as [pn [_ H]]. apply bind_ok in H. destruct H as [sn [_ H]].
+  apply bind_ok in H. destruct H as [st4 [E4 H]]. inversion H; subst; clear H.
+  apply (foldM_inv_list _ _ _ (fun done st => map i_index (snd (fst st)) = map i_index items2 ++ map fst done)) in E4.
+  2:{ simpl. rewrite app_nil_r. reflexivity. }
+  2:{ intros done x s s' Hd Hs. apply phase4_step_items in Hs. rewrite Hs, Hd, map_app, <- app_assoc. reflexivity. }
+  destruct st4 as [[m4 items4] gp]. simpl in *. inversion H1; subst. rewrite E4, E2, E1, <- app_assoc. reflexivity.
+Qed.
+
+Lemma filter_partition_perm : forall A (f : A -> bool) l, Permutation (filter f l ++ filter (fun x => negb (f x)) l) l.
+Proof.
+  induction l; simpl; auto. destruct (f a); simpl.
+  - constructor. auto.
+  - eapply perm_trans; [apply Permutation_sym; apply Permutation_middle|]. constructor. auto.
+Qed.
+
+Lemma filter_filter : forall A (f g : A -> bool) l, filter f (filter g l) = filter (fun x => g x && f x) l.
+Proof. induction l; simpl; auto. destruct (g a); simpl; auto. destruct (f a); simpl; congruence. Qed.
+
+Lemma phases_partition : forall children pax,
+  Permutation (filter phase1_filter children ++ filter (phase2_filter pax (other_axis pax)) children ++
+               filter (phase4_filter (other_axis pax)) children) children.
+Proof.
+  intros children pax.
+  set (S := fun x : Z * child => is_definite (grid_placement (snd x) (other_axis pax))).
+  set (P := fun x : Z * child => is_definite (grid_placement (snd x) pax)).
+  assert (E1 : filter phase1_filter children = filter P (filter S children)).
+  { rewrite filter_filter. apply filter_ext. intros [i c]. unfold phase1_filter, S, P. destruct pax; simpl; auto. apply andb_comm. }
+  assert (E2 : filter (phase2_filter pax (other_axis pax)) children = filter (fun x => negb (P x)) (filter S children)).
+  { rewrite filter_filter. apply filter_ext. intros x. reflexivity. }
+  assert (E4 : filter (phase4_filter (other_axis pax)) children = filter (fun x => negb (S x)) children) by reflexivity.
+  rewrite E1, E2, E4, app_assoc.
+  eapply perm_trans; [apply Permutation_app_tail; apply filter_partition_perm|]. apply filter_partition_perm.
+Qed.
+
+(* insertion sort on the indices *)
+Fixpoint insert_z (x : Z) (l : list Z) : list Z :=
+  match l with [] => [x] | y :: t => if x <? y then x :: l else y :: insert_z x t end.
+Definition sort_z (l : list Z) : list Z := fold_right insert_z [] l.
+
+Lemma map_insert_item : forall x l, map i_index (insert_item x l) = insert_z (i_index x) (map i_index l).
+Proof. induction l; simpl; auto. destruct (i_index x <? i_index a); simpl; congruence. Qed.
+
+Lemma map_sort_items : forall l, map i_index (sort_items l) = sort_z (map i_index l).
+Proof. induction l; simpl; auto. rewrite map_insert_item, IHl. reflexivity. Qed.
+
+Inductive ssorted : list Z -> Prop :=
+| ss_nil : ssorted []
+| ss_cons : forall x l, Forall (fun y => x < y) l -> ssorted l -> ssorted (x :: l).
+
+Lemma insert_z_perm : forall x l, Permutation (insert_z x l) (x :: l).
+Proof.
+  induction l; simpl; auto. destruct (x <? a); auto.
+  eapply perm_trans; [apply perm_skip; exact IHl|]. apply perm_swap.
+Qed.
+
+Lemma insert_z_sorted : forall x l, ssorted l -> ~ In x l -> ssorted (insert_z x l).
+Proof.
+  induction 1; simpl; intros Hn.
+  - constructor; constructor.
+  - destruct (Z.ltb_spec x x0).
+    + constructor; [|constructor; auto]. constructor; auto. eapply Forall_impl; [|exact H]. simpl. intros; lia.
+    + constructor.
+      * assert (Hp := insert_z_perm x l). apply Forall_forall. intros y Hy.
+        eapply Permutation_in in Hy; [|exact Hp]. destruct Hy as [Hy|Hy]; [subst; assert (x0 <> y) by (intro; subst; apply Hn; auto); lia|].
+        rewrite Forall_forall in H. auto.
+      * apply IHssorted. intro. apply Hn. auto.
+Qed.
+
+Lemma sort_z_spec : forall l, NoDup l -> ssorted (sort_z l) /\ Permutation (sort_z l) l.
+Proof.
+  induction 1; simpl.
+  - split; constructor.
+  - destruct IHNoDup as [Hs Hp]. split.
+    + apply insert_z_sorted; auto. intro Hin. apply H. eapply Permutation_in; eauto.
+    + eapply perm_trans; [apply insert_z_perm|]. constructor. auto.
+Qed.
+
+Lemma ssorted_unique : forall l l', ssorted l -> ssorted l' -> Permutation l l' -> l = l'.
+Proof.
+  induction l; intros l' Hs Hs' Hp.
+  - apply Permutation_nil in Hp. auto.
+  - destruct l' as [|b l']; [apply Permutation_sym, Permutation_nil in Hp; discriminate|].
+    inversion Hs; subst. inversion Hs'; subst.
+    assert (a = b).
+    { assert (Ha : In a (b :: l')) by (eapply Permutation_in; [exact Hp|left; auto]).
+      assert (Hb : In b (a :: l)) by (eapply Permutation_in; [apply Permutation_sym; exact Hp|left; auto]).
+      destruct Ha as [Ha|Ha]; auto. destruct Hb as [Hb|Hb]; auto.
+      rewrite Forall_forall in H1, H3. specialize (H1 _ Hb). specialize (H3 _ Ha). lia. }
+    subst b. f_equal. apply IHl; auto. eapply Permutation_cons_inv; eauto.
+Qed.
+
+Lemma ssorted_enumerate_filter : forall A (f : Z * A -> bool) (l : list A) s, ssorted (map fst (filter f (enumerate_from s l))).
+Proof.
+  induction l; simpl; intros s; [constructor|].
+  destruct (f (s, a)); simpl; auto. constructor; auto.
+  apply Forall_forall. intros y Hy. apply in_map_iff in Hy. destruct Hy as [[i x] [Hi Hin]]. simpl in Hi. subst.
+  apply filter_In in Hin. destruct Hin as [Hin _]. apply enumerate_from_In in Hin. lia.
+Qed.
+
+Lemma ssorted_nodup : forall l, ssorted l -> NoDup l.
+Proof.
+  induction 1; constructor; auto. intro Hin. rewrite Forall_forall in H. specialize (H _ Hin). lia.
+Qed.
+
+Theorem every_child_placed : forall ec er fl children o, in_domain ec er children ->
+  grid_placement_run ec er fl children = Ok o ->
+  map p_index (o_items o) = map fst (in_flow_children children).
+Proof.
+  intros ec er fl children o Hdom Hrun.
+  destruct (run_inv _ _ _ _ _ Hdom Hrun) as (m & items & Hinv & _ & _ & _ & _ & _ & _ & Hrep & (m0 & Epl)).
+  assert (E1 : map p_index (o_items o) = map i_index (sort_items items)).
+  { clear - Hrep. induction Hrep; simpl; auto. destruct H as (Hi & _). congruence. }
+  rewrite E1, map_sort_items.
+  assert (Hidx := place_grid_items_indices _ _ _ _ _ Epl).
+  assert (Hperm : Permutation (map i_index items) (map fst (in_flow_children children))).
+  { rewrite Hidx, <- !map_app. apply Permutation_map. apply phases_partition. }
+  assert (Hsorted : ssorted (map fst (in_flow_children children))).
+  { unfold in_flow_children. rewrite map_map. rewrite map_ext with (g := fst) by (intros [i [k c]]; reflexivity).
+    apply ssorted_enumerate_filter. }
+  assert (Hnd : NoDup (map i_index items)).
+  { eapply Permutation_NoDup; [apply Permutation_sym; exact Hperm|]. apply ssorted_nodup; auto. }
+  destruct (sort_z_spec _ Hnd) as [Hs Hp].
+  apply ssorted_unique; auto. eapply perm_trans; eauto.
 Qed.
